@@ -165,7 +165,7 @@ func (r *returnedBytes) add(c *mon.Ctx, got []byte, what, sig string, o *model.O
 // ---- C09 ----------------------------------------------------------------------------
 
 func runC09(c *mon.Ctx) {
-	c.Rule("(a) valid claims-sets of both profiles and of two registered extension profiles (all optional-claim subsets, hash sizes 32/48/64, 1-4 components, flag or list, with/without explicit P1 profile), built directly / through setters / by decoding: encode -> decode must give the same dynamic type and identical results for Validate and every getter, and encoding again must give identical bytes; returned encodings are kept and re-checked / re-decoded after six further encodes; (b) decodable-but-invalid and open-encoding tokens from the C04 generator, and tokens of the registered extension profile with the profile key repeated under another registered name, mandatory claims set to null, wire edits and extension-claim variants: decode -> encode either fails or yields bytes that decode to the same observation. distinct_nontrivial = distinct (profile, route, optional-subset, nonce size, component count, value-class) signatures")
+	c.Rule("(a) valid claims-sets of both profiles, of two registered extension profiles and of a registered extension that brings its own software-component type (stock component + one field, no hand-written codecs; built with NewClaims + setters, the field must survive the round trip) (all optional-claim subsets, hash sizes 32/48/64, 1-4 components, flag or list, with/without explicit P1 profile), built directly / through setters / by decoding: encode -> decode must give the same dynamic type and identical results for Validate and every getter, and encoding again must give identical bytes; returned encodings are kept and re-checked / re-decoded after six further encodes; (b) decodable-but-invalid and open-encoding tokens from the C04 generator, and tokens of the registered extension profile with the profile key repeated under another registered name, mandatory claims set to null, wire edits and extension-claim variants: decode -> encode either fails or yields bytes that decode to the same observation. distinct_nontrivial = distinct (profile, route, optional-subset, nonce size, component count, value-class) signatures")
 	if err := extprof.Register(extprof.ExtP2Name, extprof.ExtP1Name); err != nil {
 		c.Violation("harness/register", err.Error(), nil)
 		return
@@ -230,6 +230,8 @@ func runC09(c *mon.Ctx) {
 			c.Sample("valid-roundtrip", map[string]any{"sig": vc.sig, "diag": a.WireCBOR().Diag()})
 		}
 	}
+	// (a'') the registered extension with its own component type
+	ownerExtRoundTrips(c, g, "C09", "cbor", c.N(400, 20000))
 	// (a') valid sets with many software components
 	counts := []int{15, 16, 17, 23, 24, 25, 63, 64, 65, 255, 256, 257, 1000}
 	if !c.Quick() {
@@ -718,13 +720,14 @@ func jsonProblems(a *model.Claims, doc []byte, extra map[string]bool) []string {
 }
 
 func runC12(c *mon.Ctx) {
-	c.Rule("valid claims-sets of both profiles and a registered profile-2 extension (text claims drawn from non-ASCII / control / quote / HTML / U+2028 strings, negative client ids, P1 with and without explicit profile claim), built directly / by setters / by decoding: (1) EncodeClaimsToJSON -> DecodeClaimsFromJSON (dispatching) gives identical Validate + getter results and type; (2) CBOR -> claims -> JSON -> claims -> CBOR reproduces the CBOR bytes; (3) every returned JSON document is also kept by the monitor and re-checked / re-decoded after six further encodes (a caller encodes several tokens before sending them); (4) the JSON document, parsed generically, has exactly the documented member names of the claims that are set, standard base64 for byte strings, no member for an absent optional claim (incl. null), no duplicate members; also through Evidence.MarshalJSON. distinct_nontrivial = distinct (profile, route, optional-subset, nonce size, component count, text-class) signatures")
+	c.Rule("valid claims-sets of both profiles, a registered profile-2 extension and a registered extension that brings its own software-component type (stock component + one field, codecs left to the JSON library; the field must survive the round trip) (text claims drawn from non-ASCII / control / quote / HTML / U+2028 strings, negative client ids, P1 with and without explicit profile claim), built directly / by setters / by decoding: (1) EncodeClaimsToJSON -> DecodeClaimsFromJSON (dispatching) gives identical Validate + getter results and type; (2) CBOR -> claims -> JSON -> claims -> CBOR reproduces the CBOR bytes; (3) every returned JSON document is also kept by the monitor and re-checked / re-decoded after six further encodes (a caller encodes several tokens before sending them); (4) the JSON document, parsed generically, has exactly the documented member names of the claims that are set, standard base64 for byte strings, no member for an absent optional claim (incl. null), no duplicate members; also through Evidence.MarshalJSON. distinct_nontrivial = distinct (profile, route, optional-subset, nonce size, component count, text-class) signatures")
 	if err := extprof.Register(extprof.ExtP2Name); err != nil {
 		c.Violation("harness/register", err.Error(), nil)
 		return
 	}
 	g := model.NewGen(c.Seed*5003 + int64(c.Shard))
 	held12 := &returnedBytes{prop: "C12"}
+	ownerExtRoundTrips(c, g, "C12", "json", c.N(400, 20000))
 	n := c.N(150000, 4000000)
 	for i := 0; i < n; i++ {
 		vc, ok := genValidCase(c, g, false)
@@ -852,4 +855,107 @@ func textSig(a *model.Claims) string {
 		out += cls(a.Comps[i].MType) + cls(a.Comps[i].Version) + cls(a.Comps[i].Desc)
 	}
 	return out
+}
+
+// ownerExtRoundTrips: valid claims-sets of the registered extension profile
+// that brings its own software-component type (stock component + "owner"
+// field, codecs left to the CBOR / JSON libraries) are built with NewClaims +
+// setters, encoded, decoded through the dispatching decoder, and compared:
+// same implementation and component type, same getter results, same owner per
+// component, byte-identical second encoding.
+func ownerExtRoundTrips(c *mon.Ctx, g *model.Gen, prop, format string, n int) {
+	if err := extprof.Register(extprof.ExtOwnerName); err != nil {
+		c.Violation("harness/register", err.Error(), nil)
+		return
+	}
+	enc, dec := psatoken.ValidateAndEncodeClaimsToCBOR, psatoken.DecodeAndValidateClaimsFromCBOR
+	if format == "json" {
+		enc, dec = psatoken.ValidateAndEncodeClaimsToJSON, psatoken.DecodeAndValidateClaimsFromJSON
+	}
+	for i := 0; i < n; i++ {
+		a := g.Valid(2)
+		a.Canon, a.Profile = extprof.ExtOwnerName, model.SP(extprof.ExtOwnerName)
+		var owners []*string
+		sig := fmt.Sprintf("owner-ext|%s|comps=%d", format, len(a.Comps))
+		pn, pv, fr := mon.Guard(func() {
+			c.Eval()
+			b := a.Clone()
+			b.Comps = nil
+			x, err := obs.SetterBuild(b) // NewClaims(extension name) + setters, components follow
+			if err != nil {
+				c.Violation(prop+"/owner-ext/setters-refused", "NewClaims / setters refused a valid value: "+err.Error(), map[string]any{"sig": sig})
+				return
+			}
+			var scs []psatoken.ISwComponent
+			for j := range a.Comps {
+				oc := &extprof.OwnerComponent{SwComponent: *obs.RealComp(&a.Comps[j])}
+				if g.R.Intn(4) != 0 {
+					oc.Owner = model.SP(g.NonEmptyText())
+				}
+				owners = append(owners, oc.Owner)
+				scs = append(scs, oc)
+			}
+			if err := x.SetSoftwareComponents(scs); err != nil {
+				c.Violation(prop+"/owner-ext/setters-refused", "SetSoftwareComponents refused valid components of the extension's type: "+err.Error(), map[string]any{"sig": sig})
+				return
+			}
+			want := a.Expect()
+			if got := obs.Observe(x); model.ObsDiff(&want, &got) != "" {
+				c.Violation(prop+"/owner-ext/built-object-differs", "object built with setters differs from the model: "+trunc(model.ObsDiff(&want, &got), 300), map[string]any{"sig": sig})
+				return
+			}
+			e1, err := enc(x)
+			if err != nil {
+				c.Violation(prop+"/owner-ext/valid-encode-failed/"+format, "encoding a valid set failed: "+err.Error(), map[string]any{"sig": sig})
+				return
+			}
+			y, err := dec(e1)
+			if err != nil {
+				c.Violation(prop+"/owner-ext/valid-decode-failed/"+format, "the library cannot decode its own encoding: "+err.Error(), map[string]any{"sig": sig, "encoding": mon.Hex(e1)})
+				return
+			}
+			if _, ok := y.(*extprof.ExtOwnerClaims); !ok {
+				c.Violation(prop+"/owner-ext/other-implementation/"+format, fmt.Sprintf("decoded into %T", y), map[string]any{"sig": sig})
+				return
+			}
+			if got := obs.Observe(y); model.ObsDiff(&want, &got) != "" {
+				c.Violation(prop+"/owner-ext/observation-changed/"+format, "round trip changed the claims: "+trunc(model.ObsDiff(&want, &got), 300), map[string]any{"sig": sig, "encoding": mon.Hex(e1)})
+				return
+			}
+			comps, err := y.GetSoftwareComponents()
+			if err != nil || len(comps) != len(owners) {
+				c.Violation(prop+"/owner-ext/components-changed/"+format, fmt.Sprintf("components after the round trip: %d (%v), want %d", len(comps), err, len(owners)), map[string]any{"sig": sig})
+				return
+			}
+			for j, sc := range comps {
+				oc, ok := sc.(*extprof.OwnerComponent)
+				if !ok {
+					c.Violation(prop+"/owner-ext/component-type-changed/"+format, fmt.Sprintf("component %d came back as %T", j, sc), map[string]any{"sig": sig})
+					return
+				}
+				if (oc.Owner == nil) != (owners[j] == nil) || (oc.Owner != nil && *oc.Owner != *owners[j]) {
+					c.Violation(prop+"/owner-ext/component-field-lost/"+format, fmt.Sprintf("component %d: the extension's own field changed in the round trip (want %v, got %v)", j, strp(owners[j]), strp(oc.Owner)), map[string]any{"sig": sig, "encoding": mon.Hex(e1)})
+					return
+				}
+			}
+			e2, err := enc(y)
+			if err != nil || !bytes.Equal(e1, e2) {
+				c.Violation(prop+"/owner-ext/bytes-unstable/"+format, fmt.Sprintf("second encoding differs (%v)", err), map[string]any{"sig": sig, "first": mon.Hex(e1), "second": mon.Hex(e2)})
+				return
+			}
+			c.Count("owner-extension-roundtrips")
+		})
+		if pn {
+			c.Violation(prop+"/panic/"+mon.PanicKey(fr), "panic during round trip of the own-component-type extension", map[string]any{"panic": pv, "frame": fr, "sig": sig})
+		}
+		c.Sig(sig)
+	}
+	c.Floor("owner-extension-roundtrips", 50)
+}
+
+func strp(p *string) string {
+	if p == nil {
+		return "<nil>"
+	}
+	return fmt.Sprintf("%q", *p)
 }
